@@ -1889,7 +1889,12 @@ func (c *DnsController) evictIdleDnsForwarders(now time.Time) {
 		}
 
 		if c.dnsForwarderCache.CompareAndDelete(k, entry) {
-			toClose = append(toClose, entry.forwarder)
+			// Retire instead of closing directly: a request that loaded the entry
+			// just before it left the cache then either fails beginUse() and
+			// redials, or is already in flight and closes it in endUse().
+			if err := entry.retire(); err != nil && c.log != nil {
+				c.log.WithError(err).Debugln("failed to close idle dns forwarder")
+			}
 		}
 		return true
 	})
